@@ -487,6 +487,21 @@ func runC04(c *core.Ctx) {
 			}
 			w.Write(p, k.content())
 		}
+		if w.Hist%10 == 4 {
+			// paths that spell out the working directory's own absolute location again beneath it (an extracted
+			// backup, tar -P, rsync -R), and paths that repeat their own prefix
+			inner := "backup" + w.SB.W() + "/main.go"
+			w.Write("main.go", k.content())
+			w.Write(inner, k.content())
+			w.Write("backup/README", k.content())
+			w.Write("rep/rep/rep/x", k.content())
+			k.goit("add", "main.go")
+			k.goit("add", "backup", "rep")
+			k.goit("rm", inner)
+			w.Write(inner, k.content())
+			k.goit("add", inner, "./rep/rep/../rep/rep/x")
+			c.Count("C04.paths-embedding-the-working-directory")
+		}
 		if w.Hist%12 == 9 {
 			// scale: hundreds of paths selected by one argument
 			big := k.Populate(120 + k.R.IntN(280))
